@@ -3,6 +3,7 @@ open FV FV.Drv
 def handle (line : String) : String :=
   match splitReq line with
   | some ("F", "regs", args) => (regsOp args).getD "bad-op"
+  | some ("F", "satproc", args) => (satprocOp args).getD "bad-op"
   | some ("F", op, args) => (globalOp op args).getD "bad-op"
   | _ => "bad-op"
 def main : IO Unit := mainLoop handle
